@@ -251,3 +251,23 @@ def unconditional_stmt(fn, pred):
             continue
         return None
     return None
+
+
+def chain_arms(node):
+    """arms of an if/elif/else chain as (condition text, body); the condition of an arm is written positively or as
+    `not <text>`, and the final else gets the negation of the last test - so `elif not C: X else: Y` and
+    `elif C: Y else: X` yield the same set of (condition, body) pairs."""
+    arms = []
+    n = node
+    while isinstance(n, ast.If):
+        t = n.test
+        neg = isinstance(t, ast.UnaryOp) and isinstance(t.op, ast.Not)
+        base = src(t.operand) if neg else src(t)
+        arms.append((("not " + base) if neg else base, n.body))
+        if len(n.orelse) == 1 and isinstance(n.orelse[0], ast.If):
+            n = n.orelse[0]
+        else:
+            if n.orelse:
+                arms.append((base if neg else "not " + base, n.orelse))
+            break
+    return arms
